@@ -539,6 +539,12 @@ func (a *c05) checkFreshNow(arm *ssa.Call, y ssa.Value, base string) {
 		r.Undecide("C05.S7-fresh-now: the variable subtracted from Next at %s is assigned from a source the checker does not classify (%s)", a.pos(arm), unknownSrc)
 		return
 	}
+	if !ok {
+		if imp := f.ImpreciseAmong(a.schedOnly); imp != nil {
+			r.Undecide("C05.S7-fresh-now: the subtracted instant may be stale at %s, but %s branches on a helper result / flag the checker does not follow exactly", a.pos(arm), a.name(imp))
+			return
+		}
+	}
 	why := "on some path the variable subtracted from Next still holds a value from before the scheduler last waited (it is not re-assigned a clock reading / the timer's value after the wait)"
 	if notClock != "" {
 		why = "the variable subtracted from Next is assigned something that is not a reading of the clock (" + notClock + ")"
@@ -612,6 +618,12 @@ func (a *c05) checkDrain() {
 				return
 			}
 			n++
+			if !ok2 {
+				if imp := f.ImpreciseAmong(a.schedOnly); imp != nil {
+					r.Undecide("C05.S7-drain: the drain at %s may see the consumed timer, but %s branches on a helper result / flag the checker does not follow exactly", a.pos(in), a.name(imp))
+					return
+				}
+			}
 			r.Check(ok2, "C05.S7-drain", construct, a.pos(in),
 				"the drain receive cannot see the timer whose value the wake-up case consumed (the variable is cleared or replaced on those paths)",
 				"after a wake-up the scheduler can execute `<-timer.C()` on the timer whose only value it has already received: Stop() reports false, the receive blocks forever, the scheduler never waits again — no later activation is started and Stop/Remove/Schedule hang (the timer variable is not cleared or replaced between the wake-up and the drain on some path)")
